@@ -347,6 +347,44 @@ def judge_c09(d):
     return None
 
 
+def _c10_parse(ans):
+    try:
+        rs, eg = [x.strip() for x in ans.split("|")]
+        return [r.split() for r in rs.split(";")], ([] if eg == "-" else eg.split(","))
+    except Exception:
+        return None, None
+
+
+def judge_c01(d):
+    """violation iff the implementation let something out (egress or a 200) that the gate model refuses,
+    or answered a refused request with something else than 407 + challenge"""
+    q, impl, model = d["query"], d["impl"], d["model"]
+    ir, ie = _c10_parse(impl); mr, me = _c10_parse(model)
+    if ir is None or mr is None or len(ir) != len(mr):
+        return None
+    if len(ie) > len(me):
+        return "outbound action(s) %s although the model allows only %s (egress without valid credentials)" % (ie, me)
+    for a, b in zip(ir, mr):
+        if b[0] == "407" and (a[0] != "407" or a[2] != "1"):
+            return "a request without valid credentials was answered %s instead of 407 with a Basic challenge" % " ".join(a)
+        if a[0] == "200" and b[0] != "200":
+            return "200 although the model refuses the request (%s)" % " ".join(b)
+    return None
+
+
+def judge_c10(d):
+    q, impl, model = d["query"], d["impl"], d["model"]
+    ir, ie = _c10_parse(impl); mr, me = _c10_parse(model)
+    if ir is None or mr is None or len(ir) != len(mr):
+        return "number of responses differs from the number of requests"
+    for a, b in zip(ir, mr):
+        if a != b:
+            return "response %s, documented response is %s" % (" ".join(a), " ".join(b))
+    if sorted(ie) != sorted(me):
+        return "outbound actions %s, expected %s (reserved authorities must not be connected to)" % (ie, me)
+    return None
+
+
 PROPS = {
     "C03": dict(
         suites=["c03"],
@@ -541,5 +579,30 @@ PROPS = {
                  "the origin-response parser of http_forwarded_stream.rs is covered by C17, not here",
                  "arithmetic overflow: models use unbounded naturals except where the code's width matters (u8 header length, u32 checksum sum: proved not to wrap)"],
         assumptions=[],
+    ),
+    "C01": dict(
+        suites=["c01"],
+        judge=judge_c01,
+        level="proof",
+        rule='sessions over the real Http1Codec (1 request) and Http2Codec (1-3, thorough 1-5 concurrent streams) on in-memory transports through the real Core::on_tunnel_request / Tunnel / HttpDownstream with a scripted forwarder injected at Core::make_forwarder: authenticator {none, registry of 2 clients, scripted accepting one token and one SNI}, SNI credentials {none, accepted, rejected}, methods {CONNECT, GET, POST, OPTIONS, HEAD}, 19 authorities (reserved names, look-alikes differing by case / suffix / port, literals v4/v6 with and without port, names with and without port, bad port), 13 Proxy-Authorization forms (absent, two valid, wrong password / user, Bearer, lower-case scheme, no space, bad base64, non-UTF-8, empty, empty token, trailing space), 13 connect outcomes (ok, refused, unreachable, timed out, 310, 311, resolver failure, EMFILE, other, upstream auth failure, completion at D-1 / D / D+1 ms under the paused clock), UDP/ICMP multiplexer failures; per request status, X-Warning code, challenge, X-Adguard-Vpn-Error and the multiset of forwarder calls are compared with the Lean session model',
+        explanation="theorems gate_sound, policy_authenticated_only_if_accepted, registry_accepts_iff, reject_is_407_no_egress, "
+                    "egress_only_after_pass, registry_no_egress_without_credentials, decision_history_independent about TT/Model/Dispatch.lean",
+        trusted=["HTTP/3: the same Tunnel / HttpDownstream code behind Http3Codec (quiche), not driven",
+                 "header parsing by httparse / h2 / http crates (first Proxy-Authorization value, OWS trimming on HTTP/1.1)",
+                 "a scripted authenticator stands for 'the configured authenticator'; the registry is the real RegistryBasedAuthenticator"],
+        assumptions=[],
+    ),
+    "C10": dict(
+        suites=["c10"],
+        judge=judge_c10,
+        level="proof",
+        rule='sessions over the real Http1Codec (1 request) and Http2Codec (1-3, thorough 1-5 concurrent streams) on in-memory transports through the real Core::on_tunnel_request / Tunnel / HttpDownstream with a scripted forwarder injected at Core::make_forwarder: authenticator {none, registry of 2 clients, scripted accepting one token and one SNI}, SNI credentials {none, accepted, rejected}, methods {CONNECT, GET, POST, OPTIONS, HEAD}, 19 authorities (reserved names, look-alikes differing by case / suffix / port, literals v4/v6 with and without port, names with and without port, bad port), 13 Proxy-Authorization forms (absent, two valid, wrong password / user, Bearer, lower-case scheme, no space, bad base64, non-UTF-8, empty, empty token, trailing space), 13 connect outcomes (ok, refused, unreachable, timed out, 310, 311, resolver failure, EMFILE, other, upstream auth failure, completion at D-1 / D / D+1 ms under the paused clock), UDP/ICMP multiplexer failures; per request status, X-Warning code, challenge, X-Adguard-Vpn-Error and the multiset of forwarder calls are compared with the Lean session model',
+        explanation="theorems exactly_one_final, codes_documented, outcome_codes, connect_result, reserved_never_resolved, "
+                    "lookalikes_are_hosts, connect_without_port_refused, health_and_mux_accepted about TT/Model/Dispatch.lean with "
+                    "statusOf / warnOf / reserved names regenerated from http_downstream.rs on every run",
+        trusted=["authority parsing (http::uri::Authority::port_u16 / host, SocketAddr::from_str): the parsed view is a model input",
+                 "HTTP/3 not driven; non-CONNECT requests that connect successfully are answered by the origin (C17)"],
+        assumptions=["_icmp with ICMP forwarding not configured, and a multiplexer that fails to be created, are answered 200 and then the "
+                     "stream is dropped: the model follows the code; the property only fixes the accepted case"],
     ),
 }
